@@ -6,6 +6,7 @@ import json
 from collections import Counter
 
 from .. import sse_gen as G
+from .. import sse_units as U
 from .. import sse_h as H
 from ..core import canon
 from ..runner import Suite
@@ -27,12 +28,16 @@ MANIFEST = dict(
               'correspondence run under virtual time with scripted HTTP',
     design='5/C12',
 )
-GEN = []
+GEN = ["SseUnits"]
 THEOREMS = [
     "c12_endpoint_forms", "c12_data_only_announcement", "c12_live_or_raise", "c12_enter_bounded", "c12_enter_complete",
     "c12_race_exactly_once", "c12_race_count", "c12_request_leaves_idle", "c12_serial_requests",
     "c12_stream_chunk_independent", "c12_delivery_chunk_independent", "c12_stream_delivers_rendered",
     "c12_stream_delivers_conformant", "c12_server_messages_once_in_order", "c12_cleanup_closes_all",
+    "c12_stream_end_after_announcement", "c12_stream_end_requests", "c12_post_target_function", "c12_endpoint_same_origin", "c12_endpoint_translated_agrees", "c12_session_id_none_iff",
+    "c12_bearer_value", "c12_headers", "c12_headers_transport_adds_nothing", "c12_header_literals_agree",
+    "c12_params_accept_iff", "c12_params_normalised", "c12_param_rules_agree", "c12_is_sse_url_spec",
+    "c12_sse_endpoint_is_sse_url", "c12_not_started",
 ]
 RULE = (
     "establishment {endpoint announced in 7 accepted forms x LF/CRLF x padding x announce tick (early, mid, timeout-1), 4xx/5xx/3xx/204, "
@@ -505,6 +510,53 @@ class Boundaries(Base):
         return "boundary/" + (o.get("enter") or {}).get("k", "none")
 
 
+INFO = Counter()
+INFO_FIRST = {}
+
+
+class Units(Suite):
+    """pure decision logic next to the transport (headers, endpoint target, session id, parameter
+    validation, is_sse_url, never-started guards): real functions vs `Model/SseUnits.lean`.  Not
+    implied by the property text: differences are informational (notes / distribution)."""
+    name = "units"
+
+    def cases(self, ctx, budget):
+        return U.cases(budget, ctx.sub_rng("c12-units", budget))
+
+    def impl_batch(self, cases):
+        return [U.run_impl(c) for c in cases]
+
+    def model_line(self, case):
+        return U.model_line(case)
+
+    def model_obs(self, out, case):
+        return U.model_obs(out, case)
+
+    def compare(self, case, o, m):
+        op = case["op"]
+        if "unavailable" in o:
+            INFO["unavailable/" + op] += 1
+            INFO_FIRST.setdefault("unavailable/" + op, o["unavailable"])
+            return None
+        mm = dict(m) if isinstance(m, dict) else m
+        gen = mm.pop("gen", None) if isinstance(mm, dict) else None
+        if op == "wire":
+            # every header the model says the clients are created with is on the GET and on the POST
+            ok = all(isinstance(o.get(w), dict) and all(o[w].get(k.lower()) == v for k, v in mm["client"]) for w in ("get", "post"))
+            ok = ok and (any(k.lower() == "authorization" for k, _ in mm["client"]) or "authorization" not in (o.get("get") or {}))
+        else:
+            ok = canon(o) == canon(mm) and (gen is None or gen == mm.get("url"))
+        if not ok:
+            INFO["differs/" + op] += 1
+            INFO_FIRST.setdefault("differs/" + op, f"case {canon(case)[:200]} impl {canon(o)[:200]} model {canon(m)[:200]}")
+        else:
+            INFO["agrees/" + op] += 1
+        return None
+
+    def kind(self, case, o):
+        return "units/" + case["op"]
+
+
 class Exits(Base):
     name = "exits"
     what = "release"
@@ -531,6 +583,16 @@ def extra(ctx, tier):
     for n in G.lits()["notes"]:
         if n not in ctx.notes:
             ctx.notes.append("C12 literals: " + n)
+    try:
+        from .. import core as _core, translate_sseunits as _T
+        for n in _T.gen(_core.REPO / "src" / "chuk_mcp")[1]["notes"]:
+            ctx.notes.append("C12 Gen/SseUnits (informational): not translated: " + n)
+    except Exception as ex:  # noqa
+        ctx.notes.append(f"C12 Gen/SseUnits: translator report unavailable: {ex!r}")
+    for k, v in sorted(INFO.items()):
+        ctx.dist["units:" + k] = v
+    for k, v in sorted(INFO_FIRST.items()):
+        ctx.notes.append(f"C12 units (informational, not implied by the property text): {k}: {v}")
     for k, v in sorted(FEATURES.items()):
         ctx.dist["feature:" + k] = v
     for k, v in sorted(OUTCOMES.items()):
@@ -538,4 +600,4 @@ def extra(ctx, tier):
 
 
 def suites():
-    return [Establish(), Requests(), Chunking(), Backpressure(), Variants(), Grammar(), Boundaries(), Exits()]
+    return [Establish(), Requests(), Chunking(), Backpressure(), Variants(), Grammar(), Boundaries(), Exits(), Units()]
